@@ -1132,6 +1132,11 @@ class ComplexModelBase(ModelBase):
             if issubclass(v, Array) and v.Attributes.max_occurs == 1:
                 v, = v._type_info.values()
 
+            if issubclass(v, XmlAttribute):
+                # in a flat document an attribute is a member like any other:
+                # it is read and validated as its own type.
+                v = v.type
+
             key = hier_delim.join(prefix)
             if issubclass(v, ComplexModelBase):
                 retval[key] = _SimpleTypeInfoElement(
